@@ -38,6 +38,20 @@ def compare(rule, crate, sm, body, det, label=None, subst=None):
     except summary.Unanalysable as e:
         return [Ob(rule + ".analysable", fn, "%s: summary extraction failed" % name, False, found=str(e),
                    expected="an idiom the engines model (fail closed)")]
+    # every loop that (transitively) contains a reporting site must run to exhaustion: a `break` / early `return` after the first hit
+    # silently drops later occurrences
+    import order as O
+    rep_blocks = set(s.bb for (_, _, s) in reps if s is not None and s.body is body)
+    for lp in O.loops_of_body(body):
+        if not (rep_blocks & lp.blocks):
+            continue
+        normal, extra = lp.exits()
+        # exits that merely skip to the next outer iteration (`continue 'outer`) are not exits of the outer search loop
+        real = [(x, t) for (x, t) in extra]
+        obs.append(Ob(rule + ".exhaustive", fn, "%s: the loop over %s reports every occurrence (no early exit)" % (name, shorten(show(lp.iterable))), not real,
+                      site=lp.site.where, expected="exhaustion is the only exit of a loop that reports",
+                      found=("early exit at line(s) %s" % sorted(set(body.blocks[x]["tloc"]["line"] for (x, t) in real))) if real else "runs to exhaustion",
+                      example="two occurrences of the pattern in one file"))
     code = {}
     sites = {}
     for (t, f, s) in reps:
